@@ -9,9 +9,12 @@ From CFDP Require Import Model.Checksum.
 From CFDP Require Import Model.Path.
 From CFDP Require Import Model.Udp.
 From CFDP Require Import Model.FsModel.
+From CFDP Require Import Model.CrcBits.
 
 Extraction Language OCaml.
 Extraction "model.ml"
+  Crc.crc_bytes Crc.crc_frame_ok
+  CrcBits.receiver_frame_check CrcBits.receiver_consumed
   Segments.merge_seg Segments.gaps Segments.is_complete Segments.seg_len
   Segments.seg_end Segments.end_or_0
   Crc.crc16
